@@ -6,6 +6,8 @@ cd /verif || exit 2
 bad=0
 for d in seeded/*/; do
   n=$(basename "$d"); p=$(echo "$n" | cut -d- -f1)
+  other=$(python3 -c "import json;print(json.load(open('$d/meta.json')).get('detected_by',''))" 2>/dev/null)
+  [ -n "$other" ] && p=$other
   out=$(tools/try_patch.sh "$d/patch.diff" "$p" 2>&1 | head -2 | tr '\n' ' ' | cut -c1-170)
   case "$out" in
     *"exit=1"*) echo "detected   $n: $out";;
